@@ -180,6 +180,12 @@ func docServiceFromCase(v interface{}, pool propsPool) docdid.Service {
 		RoutingKeys: strList(m["routingKeys"]), Accept: strList(m["accept"])}
 	if p, ok := m["priority"]; ok && p != nil {
 		s.Priority = p
+		// callers pass Go ints
+		if n, isNum := p.(json.Number); isNum {
+			if i, err := n.Int64(); err == nil {
+				s.Priority = int(i)
+			}
+		}
 	}
 	switch e := m["endpoint"].(type) {
 	case nil:
